@@ -344,6 +344,15 @@ def inline_new_helpers(dd, known, max_rounds=4):
                     ht['_ret'] = loff
                     extra, nt = _shift_term(ht, boff, t['dest'], t.get('t'), t.get('u'), ln)
                     nt.pop('_ret', None)
+                    # a generic helper: remember the type arguments of this call on what was spliced in (calls and the
+                    # closures it builds), so that `T::f(..)` inside can be read with the caller's T
+                    if t.get('ga'):
+                        if nt.get('k') == 'call':
+                            nt['inl_ga'] = list(t['ga'])
+                        for s_ in nbk['stmts']:
+                            rv_ = s_.get('rv') if isinstance(s_, dict) else None
+                            if isinstance(rv_, dict) and isinstance(rv_.get('agg'), dict) and rv_['agg'].get('kind') in ('closure', 'coroutine', 'coroutine_closure'):
+                                rv_['agg'] = dict(rv_['agg'], inl_ga=list(t['ga']))
                     nbk['stmts'].extend(extra)
                     nbk['term'] = nt
                     blocks.append(nbk)
